@@ -216,8 +216,7 @@ def physical_lines(state):
 
 def canonical_text(state):
     """The sequence of logical lines of a state in the plainest layout: comment and blank lines dropped, the parts of a
-    continued line joined with one space (first part keeps its indentation), no trailing whitespace, LF between lines,
-    one str. This is the reference text: the property says the model depends on nothing else."""
+    continued line joined with one space, no indentation, no trailing whitespace, LF between lines, one str. This is the reference text: the property says the model depends on nothing else."""
     out = []
     cur = None
     for ln in state[0]:
@@ -225,7 +224,7 @@ def canonical_text(state):
             continue
         body = ''.join(tok if i == 0 else ln[3][i - 1] + tok for i, tok in enumerate(ln[2]))
         if cur is None:
-            cur = ln[1] + body
+            cur = body
         else:
             cur = cur + ' ' + body
         if not ln[5]:
